@@ -70,7 +70,13 @@ POOL = [
     "[{zzordC: 1, zzordA: 2, zzordB: 3}.keys, %{'zzordC: 1, 'zzordA: 2}.keys, {zzordB: 1, zzordA: 2}.S, {|zzordC: 1, zzordA: 2| \\_}(zzordA: 5, zzordC: 6)].p",
     # programs that read part, all, or more than all of their standard input
     "[<>, <>]", "<>; <>; <>", "a := <>; a.p; 1",
+    # wear: earlier programs that do MANY of something (handled errors, failed calls under a thoughtful chain, calls, names met for the first time);
+    # they are used as histories only, before a handful of ordinary probes (anything counted or cached per process shows after them)
+    "(1:10500)~@{|i| i.nosuchprop}.len", "(1:10500)@{|i| nil.try.{|u| 1 / 0}.err.nil?}.len", "(1:10500)@{|i| [i]@{|e| {|x| x}(e)}}.len", "(1:3000)@{|i| \"zzw#{i} := #{i}\".evalEnv.keys}.len",
+    "f := {|n| f(n - 1) if n > 0; n}; (1:40)@{|i| nil.try.{|u| f(300)}.A}.len",
 ]
+WEAR = {k for k, p_ in enumerate(POOL) if isinstance(p_, str) and p_.startswith(("(1:10500)", "(1:3000)", "f := {|n| f(n - 1)"))}
+WEAR_PROBES = {0, 4, 5, 9, 11, 12, 17, 19, 20, 21}
 SHARED = {"lib/broken.pangaea": "v := 1\nraise Err.new(\"boom\")\n", "lib/syntaxerr.pangaea": "v := (1 +\n", "lib/good.pangaea": "v := 42; \"loading good\".p\n"}
 HELPER = {i: p[1] for i, p in enumerate(POOL) if isinstance(p, tuple)}
 POOL = [p[0] if isinstance(p, tuple) else p for p in POOL]
@@ -141,7 +147,9 @@ def run():
     ck.add_tlc(res, f"MC_C19 NProgs={n} MaxHist=2")
     sessions = [c["hist"] for c in payloads(res, "CASE ")]
     # every (history of one program, probe) pair, and a seeded sample of the 2-program histories
-    sessions = [s for s in sessions if len(s) == 2] + ck.rng.sample([s for s in sessions if len(s) == 3], 40000 if thorough else 900)
+    light = lambda s_: not any(p - 1 in WEAR for p in s_)
+    sessions = ([s for s in sessions if len(s) == 2 and (light(s) or (s[0] - 1 in WEAR and s[1] - 1 in WEAR_PROBES))]
+                + ck.rng.sample([s for s in sessions if len(s) == 3 and light(s)], 40000 if thorough else 900))
     # FreshObs: each program alone in a newly started interpreter process
     fresh = {}
     freqs = [{"id": f"{emb}.{p}", "mode": "session", "embed": emb, "progs": [POOL[p]], "helpers": helpers([p]), "shared": SHARED, "stdin": "l1\nl2\n"} for emb in EMBEDDINGS for p in range(n)]
